@@ -15,7 +15,7 @@ from . import common
 
 ID = 'C01'
 LEVEL = 'exploration'
-RUNS = {'quick': 20000, 'thorough': 600000}
+RUNS = {'quick': 80000, 'thorough': 600000}
 SIM_TIME_UNIT = 'samples'
 RULE = ('seeded generation of (specification over the whole STL grammar, trace of 1..12 samples, 1-3 sensor clocks with '
         'jitter/drift/jump/offset faults); a case is non-trivial when the reference value list contains a finite value and is '
